@@ -39,6 +39,7 @@ impl Prop for C12 {
             reopen: 0,
             rebuild: 0,
             extra: 1,
+            pressure: 3,
         };
         let cfg = EvCfg {
             kind_weights: [2, 3, 4, 1, 1],
@@ -63,7 +64,10 @@ impl Prop for C12 {
         };
         for (stepno, op) in c.ops.iter().enumerate() {
             let Some(conc) = w.concretise(op) else { continue };
-            let is_store = matches!(conc, Concrete::Store(_));
+            let is_store = matches!(conc.inner(), Concrete::Store(_));
+            if conc.under_pressure() {
+                out.label("store-under-reader-exhaustion");
+            }
             let before = if is_store {
                 match w.snapshot() {
                     Ok(s) => Some(s),
